@@ -77,7 +77,7 @@ def envReadLoop (im : Image) (c : MetaCfg) : Nat → MetaSt → UInt64 → Array
     if size == 0 then out
     else if m.offset > m.dataUsed then out
     else
-      let p := refill c m
+      let p := refill true c m
       match p.1.r with
       | .error _ => out
       | .ok () =>
@@ -103,30 +103,47 @@ def parseSuper (im : Image) : Super :=
     xattrIdTableStart := le64 im 56, inodeTableStart := le64 im 64, dirTableStart := le64 im 72,
     fragTableStart := le64 im 80, exportTableStart := le64 im 88 }
 
-/-- `sqfs_read_table` on the image: status and the table contents.  The copy loop is `readTableLoop` with the
-seek/read of every step played by the meta reader model. -/
-def readTableEnv (im : Image) (req : TableReq) : Except Err (Array UInt8) :=
+/-- the seek + read of every iteration of the copy loop of `sqfs_read_table` on the image (the loop stops after the
+first failure): outcome per iteration, and the bytes delivered -/
+def readTableSteps (im : Image) (req : TableReq) : Array (Except Err Unit) × Array UInt8 :=
   let bc := tableBlockCount req.tableSize
-  if readFails im req.location (8 * bc.toNat) then .error .io
+  let c : MetaCfg := ⟨req.lower, req.upper, metaSrc im⟩
+  let rec go (fuel : Nat) (m : MetaSt) (left : UInt64) (blk : Nat) (steps : Array (Except Err Unit)) (out : Array UInt8) :
+      Array (Except Err Unit) × Array UInt8 :=
+    match fuel with
+    | 0 => (steps, out)
+    | fuel + 1 =>
+      if left == 0 then (steps, out)
+      else
+        let start := le64 im (req.location.toNat + 8 * blk)
+        let r := seek c m start 0
+        match r.r with
+        | .error e => (steps.push (.error e), out)
+        | .ok () =>
+          let diff : UInt64 := if (8192 : UInt64) > left then left else 8192
+          let r2 := mread true c r.st diff
+          match r2.r with
+          | .error e => (steps.push (.error e), out)
+          | .ok () => go fuel r2.st (left - diff) (blk + 1) (steps.push (.ok ())) (out ++ envRead im c r.st diff)
+  go (bc.toNat + 1) MetaSt.init req.tableSize 0 #[] #[]
+
+/-- `sqfs_read_table` on the image: the locations are read (`read_at`), then the copy loop is `readTable` of
+`ReaderBounds` (the function the theorems `read_table_safe` / `read_table_terminates` are about) with the outcome of
+its steps taken from the meta reader model on the image.  Status (with the error of the failing step), table
+contents, accesses of the loop. -/
+def readTableEnv (im : Image) (req : TableReq) : Except Err (Array UInt8) × List Access :=
+  let bc := tableBlockCount req.tableSize
+  if readFails im req.location (8 * bc.toNat) then (.error .io, [])
   else
-    let c : MetaCfg := ⟨req.lower, req.upper, metaSrc im⟩
-    let rec go (fuel : Nat) (m : MetaSt) (left : UInt64) (blk : Nat) (out : Array UInt8) : Except Err (Array UInt8) :=
-      match fuel with
-      | 0 => .error .fuel
-      | fuel + 1 =>
-        if left == 0 then .ok out
-        else
-          let start := le64 im (req.location.toNat + 8 * blk)
-          let r := seek c m start 0
-          match r.r with
-          | .error e => .error e
-          | .ok () =>
-            let diff : UInt64 := if (8192 : UInt64) > left then left else 8192
-            let r2 := mread true c r.st diff
-            match r2.r with
-            | .error e => .error e
-            | .ok () => go fuel r2.st (left - diff) (blk + 1) (out ++ envRead im c r.st diff)
-    go (bc.toNat + 1) MetaSt.init req.tableSize 0 #[]
+    let (steps, content) := readTableSteps im req
+    let r := readTable req.tableSize (fun i => match steps[i]? with | some (.ok ()) => true | _ => false)
+    match r.1 with
+    | .ok () => (.ok content, r.2)
+    | .error e =>
+      let named := steps.foldl (fun acc st => match acc, st with
+        | none, .error e' => some e'
+        | acc, _ => acc) (none : Option Err)
+      (.error (named.getD e), r.2)
 
 /-- what the key-value stream of the xattr reader holds at the position of `m` -/
 def envKvAns (im : Image) (c : MetaCfg) (xs : UInt64) (m : MetaSt) : KvAns :=
